@@ -602,6 +602,18 @@ SERDE_PRELUDE = r'''
 // the visitor's contract says the world is built from exactly those three values.
 #[verifier::external_body]
 pub struct VxSeq { _p: () }
+// ---- R15: `a == b` on non-primitive operands is the PartialEq::eq call of the operand type.
+// Archetypes::eq is verified in unit archs, Allocator::eq / component_eq are decided by K-eq,
+// the resource list's PartialEq is user code (A8).
+pub uninterp spec fn vx_archetypes_eq<R: Registry>(a: Archetypes<R>, b: Archetypes<R>) -> bool;
+pub uninterp spec fn vx_allocator_eq<R: Registry>(a: Allocator<R>, b: Allocator<R>) -> bool;
+pub uninterp spec fn vx_values_eq<T>(a: T, b: T) -> bool;
+#[verifier::external_body]
+pub fn vx_eq_archetypes<R: Registry>(a: &Archetypes<R>, b: &Archetypes<R>) -> (r: bool) ensures r == vx_archetypes_eq(*a, *b) { unimplemented!() }
+#[verifier::external_body]
+pub fn vx_eq_allocator<R: Registry>(a: &Allocator<R>, b: &Allocator<R>) -> (r: bool) ensures r == vx_allocator_eq(*a, *b) { unimplemented!() }
+#[verifier::external_body]
+pub fn vx_eq_values<T>(a: &T, b: &T) -> (r: bool) ensures r == vx_values_eq(*a, *b) { unimplemented!() }
 #[verifier::external_body]
 pub struct VxErr { _p: () }
 pub struct VxResDe<T>(pub T);
@@ -838,6 +850,16 @@ def build():
                     ("C11.world.allocator_from_stream", "r is Ok ==> r->Ok_0.entity_allocator == vx_seq_alloc::<Registry>(vx_seq_next(seq))"),
                     ("C15.deserialize.resources", "r is Ok ==> r->Ok_0.resources == vx_seq_res::<Resources>(vx_seq_next(vx_seq_next(seq)))")],
            props=["C18", "C06", "C11", "C15"]),
+    ])
+
+    WQ = "src/world/impl_eq.rs"
+    u.impl("impl<Registry, Resources> World<Registry, Resources> where Registry: crate::Registry", [
+        Fn(WQ, r"^impl<Registry, Resources> cmp::PartialEq for World<Registry, Resources>", "eq", ret="b", vis="pub",
+           rewrites=[(r"self\.archetypes == other\.archetypes", "vx_eq_archetypes(&self.archetypes, &other.archetypes)", "R15: == on Archetypes is Archetypes::eq (unit archs)"),
+                     (r"self\.entity_allocator == other\.entity_allocator", "vx_eq_allocator(&self.entity_allocator, &other.entity_allocator)", "R15: == on Allocator is Allocator::eq (K-eq)"),
+                     (r"self\.resources == other\.resources", "vx_eq_values(&self.resources, &other.resources)", "R15: == on the resource list is user PartialEq (A8)")],
+           ensures=[("C16.world_eq", "b == (self.len == other.len && vx_archetypes_eq(self.archetypes, other.archetypes) && vx_allocator_eq(self.entity_allocator, other.entity_allocator) && vx_values_eq(self.resources, other.resources))")],
+           props=["C16"]),
     ])
     u.text(WORLD_LEMMAS)
     u.type_rewrites += [
